@@ -195,9 +195,14 @@ def check_mesh_to_mesh(tier, seed):
     obs = []
     for periodic in (True, False):
         for dim in (1, 2, 3) if tier != 'quick' else (1, 2):
-            for (io, ro) in ((2, 2), (4, 2), (4, 4), (6, 2)) if tier != 'quick' else ((2, 2), (4, 2)):
+            for (io, ro) in ((2, 2), (4, 2), (4, 4), (6, 2), (2, 4), (2, 6), (4, 6), (6, 4), (8, 2), (2, 8)) if tier != 'quick' else ((2, 2), (4, 2), (2, 4), (4, 6)):
                 nc1 = 8 if periodic else 7
                 nf1 = 16 if periodic else 15
+                if max(io, ro) >= 8:
+                    # an order equal to the number of coarse points is the recorded finding of the periodic helper: stay clear of it here
+                    if dim == 3:
+                        continue
+                    nc1, nf1 = (16, 32) if periodic else (15, 31)
                 nvc = nc1 if dim == 1 else (nc1,) * dim
                 nvf = nf1 if dim == 1 else (nf1,) * dim
                 Pf, Pc = _P(nvf, periodic), _P(nvc, periodic)
@@ -211,6 +216,11 @@ def check_mesh_to_mesh(tier, seed):
                 obs.append(_ob(f'{tag}:nD_is_kronecker_product', np.allclose(T.Pspace.toarray(), Pk, atol=1e-13) and np.allclose(T.Rspace.toarray(), Rk, atol=1e-13)))
                 if io == ro:
                     obs.append(_ob(f'{tag}:R_is_half_P_transposed_per_dimension', np.allclose(R1, 0.5 * P1.T, atol=1e-14)))
+                else:
+                    # each operator has ITS OWN order: the restriction is half the transposed interpolation of order rorder, the prolongation the interpolation of order iorder
+                    P_ro = mesh_to_mesh(_P(nf1, periodic), _P(nc1, periodic), dict(periodic=periodic, iorder=ro, rorder=ro)).Pspace.toarray()
+                    P_io = mesh_to_mesh(_P(nf1, periodic), _P(nc1, periodic), dict(periodic=periodic, iorder=io, rorder=io)).Pspace.toarray()
+                    obs.append(_ob(f'{tag}:restriction_has_order_rorder_prolongation_order_iorder', np.allclose(R1, 0.5 * P_ro.T, atol=1e-14) and np.allclose(P1, P_io, atol=1e-14) and not np.allclose(P_ro, P_io, atol=1e-6)))
                 if periodic:
                     G = mesh(Pc.init, val=3.25)
                     F = T.prolong(G)
